@@ -56,9 +56,11 @@ def run(b, ps, tier, seed):
             if sum(len(p) for p in preds) > 0 and len(labels) > 1:
                 nontrivial_orders += 1
             for cfg, r in d.impl[i].items():
-                if cfg[0] != m or r["panic"]:
+                if cfg[0] != m:
                     continue
-                order_checked += 1
+                if r["panic"] and d.model[i][m]["0"]["tag"] != "RAN":
+                    continue            # the model's run dies too: C01's business
+                order_checked += 1      # a run that dies where the model's does not prints a multiset the semantics does not admit
 
                 def bad(res, labels=labels, preds=preds):
                     return not R.is_linear_extension(res["prints"], labels, preds)
@@ -127,6 +129,9 @@ def refinement_runs(b, d, tier):
     # hold the theorem covers EVERY run of the program in the two polarized modes, and the checked run must succeed
     prem = S.run_tool(b.model, "c04premises", cases, timeout=1800)
     prem_ok = {i for i, _ in d.programs if prem.get(i, "").split("\t")[0] == "PREMISES-OK"}
+    # the premises of C04_prints_admitted_core: parses, accepted, closed, core_src_b on the SOURCE (init_linear derived)
+    core = S.run_tool(b.model, "c04core", cases, timeout=1800)
+    core_ok = {i for i, _ in d.programs if core.get(i, "").split("\t")[0] == "CORE-OK"}
     prem_ok_not_checked = sorted(i for i in prem_ok if i in inv_fail_all)
     lin_without_premises = sorted(i for i, _ in d.programs if lin[i] and i not in prem_ok)
     sync_compared = 0
@@ -144,6 +149,9 @@ def refinement_runs(b, d, tier):
                     if r2 is not None:
                         violations.append(P.violation(PROP, "result", "synchronous run prints a multiset the SAX semantics does not admit for this program: observed %s, SAX-admitted %s" % (r2["prints"], ref["order"]),
                                                       i, t, cfg, {"prints": r2["prints"]}, {"prints": ref["order"], "must_precede": []}))
+    if core_ok - prem_ok:
+        violations.append(C.Violation("core_src_b holds but init_linear_b fails (contradicts init_linear_parsed: extraction / driver problem)",
+                                      {"property": PROP, "kind": "unproven", "no_longer_checks": [{"what": "c04core vs c04premises", "detail": str(sorted(core_ok - prem_ok)[:5])}]}, found_input=False))
     if prem_ok_not_checked:
         violations.append(C.Violation("premises of C04_prints_admitted hold but the checked run failed (contradicts inv_sax_inv: extraction / driver problem)",
                                       {"property": PROP, "kind": "unproven", "no_longer_checks": [{"what": "c04premises vs saxcheck", "detail": str(prem_ok_not_checked[:5])}]}, found_input=False))
@@ -152,6 +160,9 @@ def refinement_runs(b, d, tier):
         known.append("refinement-invariant check failed on linear-fragment programs (theorem not applicable to them; covered by the correspondence only): %s" % sorted(set(inv_fail_linear))[:10])
     cov = {"schedules": seeds,
            "programs_satisfying_premises_of_C04_prints_admitted (closed, init_linear: every run covered by the theorem, async and sync)": len(prem_ok),
+           "programs_satisfying_premises_of_C04_prints_admitted_core (parses, accepted, closed, core_src_b on the source: no premise about the annotated program)": len(core_ok),
+           "core_ok_but_init_linear_check_fails (would contradict init_linear_parsed)": sorted(core_ok - prem_ok)[:10],
+           "init_linear_holds_but_source_not_core (e.g. an empty case)": sorted(prem_ok - core_ok)[:10],
            "linear_fragment_programs_not_satisfying_them (covered by the checked runs and the correspondence only)": lin_without_premises[:20],
            "implementation_sync_runs_compared_with_sax_admitted_multiset": sync_compared,
            "runs_covered_by_prints_admitted_checked": checked,
